@@ -68,6 +68,8 @@ type lp struct {
 	closed  bool
 	router  bool
 	tgt     packet.Addr
+	arrived int // number of gate arrivals
+	sleeps  int // number of times the loop entered its select (ICMPv6)
 }
 
 // ctl is the scheduler of the loops and the event log. One per process (the hooks are package globals).
@@ -143,11 +145,18 @@ func (c *ctl) loopDone(id int) {
 func (c *ctl) gate(name string, id int) {
 	c.mu.Lock()
 	l := c.loops[id]
-	if l == nil || l.free || !c.gated {
+	if l == nil || !c.gated {
 		c.mu.Unlock()
 		return
 	}
+	if l.free {
+		// a loop of an abandoned behaviour that is still running after its handler was closed: park it
+		// for good (it must not spin or write into the log of the next behaviour)
+		c.mu.Unlock()
+		select {}
+	}
 	l.pos = name
+	l.arrived++
 	ch := l.gate
 	c.cond.Broadcast()
 	c.mu.Unlock()
